@@ -17,8 +17,8 @@ LEVEL_TEXT = ("Lean theorem: in the footprint model every interleaving of the th
               "the footprint obligation is discharged from a scan, regenerated on every run, of every static-storage object of the library built from the working tree and of every instruction that stores to it: "
               "the stored-to objects must be exactly the documented shared state (kernel-checked by decide); the functions that write each documented cell must be exactly the documented setters, and histories that do not write a cell another thread uses are schedule-independent in the cell model (interleaving_irrelevant_cells). Seeded multi-threaded op lists run on a plain and on a ThreadSanitizer build and are compared with their sequential results.")
 LEVEL_NOTE = ("Real schedules beyond the sampled TSan runs are covered only through the static scan. Indirect writes: every source occurrence of every writable static is classified from the clang AST "
-              "(escaped_statics_harmless: undocumented, non-constant statics are only loaded, compared, or passed to pointer-to-const parameters; local pointer aliases are followed); not followed: callees behind "
-              "pointer-to-const parameters (assumed not to cast const away) and function-pointer calls.")
+              "(escaped_statics_harmless: undocumented, non-constant statics are only loaded, compared, or passed to pointer-to-const parameters; local pointer aliases are followed); pointer-to-const parameters are followed into "
+              "callees defined in the library); not followed: function-pointer calls and libc callees (prototype trusted).")
 
 def gen_ops(rng, tier, ctx=None):
     n = 6 if tier == "quick" else 40
